@@ -19,6 +19,7 @@ import (
 	"os"
 	"regexp"
 	"runtime"
+	"sort"
 	"strings"
 	"sync"
 	"time"
@@ -47,6 +48,12 @@ type replayCase struct {
 	Module string      `json:"module"`
 }
 
+type candidate struct {
+	cfg   drv.Cfg
+	sched []drv.Step
+	prop  string
+}
+
 func run(c *lib.Ctx) error {
 	dir := c.SpecDir("Peach")
 	if c.Replay != "" {
@@ -55,65 +62,147 @@ func run(c *lib.Ctx) error {
 	defer runtime.GOMAXPROCS(runtime.GOMAXPROCS(0))
 	c.Set("rule", "a case is one evaluation of the real peach/each/run-parallel with harness callbacks; distinct by (mode, n, bound, scripts, recorded event sequence); runs with fewer than 2 inputs are not counted")
 
-	// ---------------------------------------------------------------- M
+	// ---------------------------------------------------------------- M and the TLC side of G run in the
+	// background (they are separate processes) while the real code is driven in this process
 	maxN := c.Pick(2, 4)
-	r, err := c.TLC("MCEach", lib.TLCRun{Dir: dir, Module: "MCEach", Workers: 4, Timeout: 10 * time.Minute,
-		Files: map[string][]byte{"MCEach.cfg": []byte(fmt.Sprintf("CONSTANTS MaxN = %d MaxOut = 2\nSPECIFICATION Spec\nINVARIANT OutputInOrder NoStartAfterBroken StopsAtFirstNonOk ExcIsFirstFail\n", c.Pick(3, 4)))}})
-	if err != nil {
-		return err
-	}
-	if r.ErrKind != "" {
-		return lib.Infra("the reference Each.tla violates its own property %s:\n%s", r.ErrName, r.ErrTrace)
-	}
 	all := `{"ok", "break", "fail"}`
-	r, err = c.TLC(fmt.Sprintf("MCPeach repaired n<=%d", maxN), lib.TLCRun{Dir: dir, Module: "MCPeach", Workers: 8, Timeout: 14 * time.Minute, HeapGB: 12,
-		Files: map[string][]byte{"MCPeach.cfg": mcCfg(maxN, 1, "{0, 1, 2}", `{"peach", "runpar"}`, all, "{TRUE}", true)}})
-	if err != nil {
-		return err
+	var bg sync.WaitGroup
+	var bgMu sync.Mutex
+	var bgErr error
+	fail := func(err error) {
+		bgMu.Lock()
+		if bgErr == nil {
+			bgErr = err
+		}
+		bgMu.Unlock()
 	}
-	if r.ErrKind != "" {
-		return lib.Infra("the REPAIRED peach model violates %s %s — the model must be re-examined:\n%s", r.ErrKind, r.ErrName, r.ErrTrace)
+	background := func(f func() error) {
+		bg.Add(1)
+		go func() {
+			defer bg.Done()
+			if err := f(); err != nil {
+				fail(err)
+			}
+		}()
 	}
-	c.Logf("repaired model: %d distinct states, no error", r.Distinct)
-	c.Set("model_repaired_states", r.Distinct)
-
-	// as-is configuration: candidates
-	type candidate struct {
-		cfg   drv.Cfg
-		sched []drv.Step
-		prop  string
-	}
-	var cands []candidate
-	for _, res := range []string{`{"ok", "break"}`, `{"ok", "fail"}`} {
-		r, err = c.TLC("MCPeach as-is "+res, lib.TLCRun{Dir: dir, Module: "MCPeach", Workers: 1, Timeout: 10 * time.Minute,
-			Files: map[string][]byte{"MCPeach.cfg": mcCfg(2, 1, "{1}", `{"peach"}`, res, "{FALSE}", false)}})
+	background(func() error {
+		r, err := c.TLC("MCEach", lib.TLCRun{Dir: dir, Module: "MCEach", Workers: 2, Timeout: 10 * time.Minute,
+			Files: map[string][]byte{"MCEach.cfg": []byte(fmt.Sprintf("CONSTANTS MaxN = %d MaxOut = 2\nSPECIFICATION Spec\nINVARIANT OutputInOrder NoStartAfterBroken StopsAtFirstNonOk ExcIsFirstFail\n", c.Pick(3, 4)))}})
 		if err != nil {
 			return err
 		}
-		if r.ErrKind == "" {
-			c.Logf("as-is model with %s: no counterexample", res)
+		if r.ErrKind != "" {
+			return lib.Infra("the reference Each.tla violates its own property %s:\n%s", r.ErrName, r.ErrTrace)
+		}
+		return nil
+	})
+	background(func() error {
+		r, err := c.TLC(fmt.Sprintf("MCPeach repaired n<=%d", maxN), lib.TLCRun{Dir: dir, Module: "MCPeach", Workers: c.Pick(2, 6), Timeout: 14 * time.Minute, HeapGB: 12,
+			Files: map[string][]byte{"MCPeach.cfg": mcCfg(maxN, 1, "{0, 1, 2}", `{"peach", "runpar"}`, all, "{TRUE}", true)}})
+		if err != nil {
+			return err
+		}
+		if r.ErrKind != "" {
+			return lib.Infra("the REPAIRED peach model violates %s %s — the model must be re-examined:\n%s", r.ErrKind, r.ErrName, r.ErrTrace)
+		}
+		c.Logf("repaired model: %d distinct states, no error", r.Distinct)
+		c.Set("model_repaired_states", r.Distinct)
+		return nil
+	})
+	// as-is configuration: its counterexamples are candidates
+	asis := []string{`{"ok", "break"}`, `{"ok", "fail"}`}
+	if c.Quick() {
+		asis = asis[:1]
+	}
+	cands := make([]*candidate, len(asis))
+	for k, res := range asis {
+		k, res := k, res
+		background(func() error {
+			r, err := c.TLC("MCPeach as-is "+res, lib.TLCRun{Dir: dir, Module: "MCPeach", Workers: 1, Timeout: 10 * time.Minute,
+				Files: map[string][]byte{"MCPeach.cfg": mcCfg(2, 1, "{1}", `{"peach"}`, res, "{FALSE}", false)}})
+			if err != nil {
+				return err
+			}
+			if r.ErrKind == "" {
+				c.Logf("as-is model with %s: no counterexample", res)
+				return nil
+			}
+			cfg, sched, err := scheduleOf(r)
+			if err != nil {
+				return lib.Infra("cannot turn the counterexample into a schedule: %v\n%s", err, r.ErrTrace)
+			}
+			c.Logf("as-is model violates %s: candidate n=%d bound=%d res=%v, %d gate events", r.ErrName, cfg.N, cfg.Bound, cfg.Res, len(sched))
+			cands[k] = &candidate{cfg, sched, r.ErrName}
+			return nil
+		})
+	}
+	var sims []simCase
+	background(func() error {
+		var err error
+		sims, err = simulate(c, dir, c.Pick(40, 600))
+		return err
+	})
+
+	var items []item
+	add := func(what, module string, cfg drv.Cfg, sched []drv.Step, evs []drv.Event) {
+		items = append(items, item{what, replayCase{cfg, sched, evs, module}})
+	}
+
+	// ---------------------------------------------------------------- V: free-running runs
+	selftest, err := drv.Cfg{Mode: "peach", N: 6, Bound: 2, Res: []string{"ok", "ok", "ok", "fail", "ok", "ok"}, Nout: []int{1, 0, 2, 1, 0, 1}, Procs: 4, Delay: []int{50, 0, -1, 200, 0, 0}}, error(nil)
+	_, good, err := drv.RunOne(selftest, nil, 2*time.Minute)
+	if err != nil {
+		return lib.Infra("%v", err)
+	}
+	c.AddEvals(1)
+	add("selftest run", "TracePeach", selftest, nil, good) // uncorrupted: must be accepted like any other
+	background(func() error { return vacuity(c, dir, good) })
+
+	nruns := c.Pick(70, 1500)
+	rng := rand.New(rand.NewSource(c.Seed))
+	one := func(what, module string, cfg drv.Cfg) error {
+		_, evs, err := drv.RunOne(cfg, nil, 3*time.Minute)
+		if err != nil {
+			return lib.Infra("%v", err)
+		}
+		c.AddEvals(1)
+		add(what, module, cfg, nil, evs)
+		return nil
+	}
+	for i := 0; i < nruns; i++ {
+		switch k := rng.Intn(10); {
+		case k < 5:
+			err = one("free run", "TracePeach", drv.RandCfg(rng, "peach", 500))
+		case k < 6:
+			err = one("free run", "TracePeach", drv.RandCfg(rng, "runpar", 500))
+		default:
+			// side by side: the same callbacks and inputs through each and through peach &num-workers=1
+			cfg := drv.RandCfg(rng, "each", 120)
+			err = one("each (side by side)", "TraceEach", cfg)
+			p := cfg
+			p.Mode, p.Bound = "peach", 1
+			for k := 1 + rng.Intn(3); k > 0 && err == nil; k-- {
+				p.Procs = []int{1, 2, 4, 8, 16}[rng.Intn(5)]
+				err = one("peach &num-workers=1 (side by side)", "TracePeach", p)
+			}
+		}
+		if err != nil {
+			return err
+		}
+	}
+	c.Logf("V: %d free-running evaluations recorded", len(items))
+
+	// ---------------------------------------------------------------- G: forced schedules on the real code
+	bg.Wait()
+	if bgErr != nil {
+		return bgErr
+	}
+	ncand, followed := 0, 0
+	for _, cd := range cands {
+		if cd == nil {
 			continue
 		}
-		cfg, sched, err := scheduleOf(r)
-		if err != nil {
-			return lib.Infra("cannot turn the counterexample into a schedule: %v\n%s", err, r.ErrTrace)
-		}
-		c.Logf("as-is model violates %s: candidate n=%d bound=%d res=%v, %d gate events", r.ErrName, cfg.N, cfg.Bound, cfg.Res, len(sched))
-		cands = append(cands, candidate{cfg, sched, r.ErrName})
-	}
-	c.Set("model_asis_candidates", len(cands))
-
-	// ---------------------------------------------------------------- G: candidates on the real code
-	type job struct {
-		what   string
-		module string
-		cfg    drv.Cfg
-		sched  []drv.Step
-		evs    []drv.Event
-	}
-	var jobs []job
-	reproduced := 0
-	for _, cd := range cands {
+		ncand++
 		for _, form := range []int{0, 3} {
 			cfg := cd.cfg
 			cfg.Form = form
@@ -123,24 +212,18 @@ func run(c *lib.Ctx) error {
 				return lib.Infra("candidate replay: %v", err)
 			}
 			c.AddEvals(1)
-			c.Logf("candidate replay (form %d): %d events, diverged=%q", form, len(evs), rn.Diverged)
+			c.Logf("candidate replay `%s`: %d events, left the schedule: %q", drv.Program(cfg), len(evs), rn.Diverged)
 			if rn.Diverged == "" {
-				reproduced++
+				followed++
 			}
-			jobs = append(jobs, job{"candidate " + cd.prop, "TracePeach", cfg, cd.sched, evs})
-			if len(jobs) == 1 {
+			add("candidate "+cd.prop, "TracePeach", cfg, cd.sched, evs)
+			if form == 0 {
 				c.Sample(map[string]any{"candidate_schedule": cd.sched, "program": drv.Program(cfg)})
 			}
 		}
 	}
-	c.Set("candidates_followed_to_the_end_by_the_real_code", reproduced)
-
-	// ---------------------------------------------------------------- G: simulated behaviours, gate order forced
-	nsim := c.Pick(40, 600)
-	sims, err := simulate(c, dir, nsim)
-	if err != nil {
-		return err
-	}
+	c.Set("model_asis_candidates", ncand)
+	c.Set("candidate_replays_followed_to_the_end_by_the_real_code", followed)
 	div := 0
 	for k, s := range sims {
 		cfg := s.cfg
@@ -154,156 +237,156 @@ func run(c *lib.Ctx) error {
 		if rn.Diverged != "" {
 			div++
 		}
-		jobs = append(jobs, job{"forced schedule", "TracePeach", cfg, s.sched, evs})
+		add("forced schedule", "TracePeach", cfg, s.sched, evs)
 	}
 	c.Set("forced_schedules", len(sims))
 	c.Set("forced_schedules_left_by_the_real_code", div)
 	c.Logf("G: %d simulated schedules forced (%d left by the real code and finished free-running)", len(sims), div)
-
-	// ---------------------------------------------------------------- V: free-running runs
-	nruns := c.Pick(70, 1500)
-	rng := rand.New(rand.NewSource(c.Seed))
-	maxSize := 500
-	for i := 0; i < nruns; i++ {
-		switch k := rng.Intn(10); {
-		case k < 5:
-			cfg := drv.RandCfg(rng, "peach", maxSize)
-			_, evs, err := drv.RunOne(cfg, nil, 3*time.Minute)
-			if err != nil {
-				return lib.Infra("%v", err)
-			}
-			jobs = append(jobs, job{"free run", "TracePeach", cfg, nil, evs})
-		case k < 6:
-			cfg := drv.RandCfg(rng, "runpar", maxSize)
-			_, evs, err := drv.RunOne(cfg, nil, 3*time.Minute)
-			if err != nil {
-				return lib.Infra("%v", err)
-			}
-			jobs = append(jobs, job{"free run", "TracePeach", cfg, nil, evs})
-		default:
-			// side by side: the same callbacks and inputs through each and through peach &num-workers=1
-			cfg := drv.RandCfg(rng, "each", 120)
-			_, evs, err := drv.RunOne(cfg, nil, 3*time.Minute)
-			if err != nil {
-				return lib.Infra("%v", err)
-			}
-			jobs = append(jobs, job{"each (side by side)", "TraceEach", cfg, nil, evs})
-			c.AddEvals(1)
-			p := cfg
-			p.Mode, p.Bound = "peach", 1
-			reps := 1 + rng.Intn(3)
-			for k := 0; k < reps; k++ {
-				p.Procs = []int{1, 2, 4, 8, 16}[rng.Intn(5)]
-				_, evs, err = drv.RunOne(p, nil, 3*time.Minute)
-				if err != nil {
-					return lib.Infra("%v", err)
-				}
-				if k < reps-1 {
-					c.AddEvals(1)
-				}
-				jobs = append(jobs, job{"peach &num-workers=1 (side by side)", "TracePeach", p, nil, evs})
-			}
-		}
-		c.AddEvals(1)
-	}
 	runtime.GOMAXPROCS(runtime.NumCPU())
-	for i, j := range jobs {
-		if j.cfg.N >= 2 {
-			c.Distinct(map[string]any{"cfg": []any{j.cfg.Mode, j.cfg.N, j.cfg.Bound, j.cfg.Res, j.cfg.Nout}, "evs": j.evs})
+	for i, it := range items {
+		if it.rc.Cfg.N >= 2 {
+			c.Distinct(map[string]any{"cfg": []any{it.rc.Cfg.Mode, it.rc.Cfg.N, it.rc.Cfg.Bound, it.rc.Cfg.Res, it.rc.Cfg.Nout}, "evs": it.rc.Events})
 		}
-		if i%17 == 3 && len(j.evs) < 40 {
-			c.Sample(map[string]any{"program": drv.Program(j.cfg), "events": j.evs})
+		if i%17 == 3 && len(it.rc.Events) < 40 {
+			c.Sample(map[string]any{"program": drv.Program(it.rc.Cfg), "events": it.rc.Events})
 		}
-	}
-
-	// ---------------------------------------------------------------- vacuity guard
-	if err := vacuity(c, dir); err != nil {
-		return err
 	}
 
 	// ---------------------------------------------------------------- judge every recorded trace with TLC
-	// batches of runs per TLC process; runs at risk of the known finding are judged alone so that a
-	// rejection does not hide the rest of a batch
-	type batch struct {
-		module string
-		jobs   []int
-		n      int
+	// Runs are concatenated (Reset starts a run) into few TLC processes. A rejected concatenation names
+	// the run (position l of the violating state), that run is reported and the remainder is judged again.
+	// Runs that show the pattern of the known finding (classification only) are judged in their own
+	// sequence, candidates first; after `cap` rejections there the rest is counted as not judged.
+	sort.SliceStable(items, func(a, b int) bool { // candidates first
+		return strings.HasPrefix(items[a].what, "candidate") && !strings.HasPrefix(items[b].what, "candidate")
+	})
+	if err := judgeAll(c, dir, items, c.Pick(2, 60)); err != nil {
+		return err
 	}
-	var batches []batch
-	open := map[string]*batch{}
-	for i, j := range jobs {
-		risky := j.module == "TracePeach" && j.cfg.Mode == "peach" && j.cfg.Bound == 1 && hasNonOk(j.cfg)
-		if risky || j.sched != nil && strings.HasPrefix(j.what, "candidate") {
-			batches = append(batches, batch{j.module, []int{i}, len(j.evs)})
+	c.Set("runs_recorded", len(items))
+	c.Assume("TLC trusted; events are ordered by one mutex-protected tracer; the effect of the release hook is placed at the hook (earliest possible), which can only make the specification more permissive about Acquire; schedules are forced at the granularity of gates (hooks and callback steps) — a forced run that leaves its schedule continues free and is still judged; timing never enters a verdict (watchdogs give exit 2)")
+	return nil
+}
+
+type item struct {
+	what string
+	rc   replayCase
+}
+
+var reL = regexp.MustCompile(`(?m)^/\\ l = (\d+)`)
+
+// position returns the number of events matched when TLC stopped (high-water mark, or the trace position
+// of the violating state).
+func position(v *lib.TraceVerdict) int {
+	if v.InvName != "" && v.Result != nil {
+		ms := reL.FindAllStringSubmatch(v.Result.ErrTrace, -1)
+		if len(ms) > 0 {
+			var l int
+			fmt.Sscan(ms[len(ms)-1][1], &l)
+			// the violating state is the one AFTER event l-1 was matched; an action property names the step into it
+			return l - 1
+		}
+	}
+	return v.HighWater
+}
+
+func judgeAll(c *lib.Ctx, dir string, items []item, capKnown int) error {
+	pattern := func(it item) bool {
+		return it.rc.Module == "TracePeach" && it.rc.Cfg.Mode == "peach" && it.rc.Cfg.Bound == 1 && startsAfterNonOk(it.rc.Events)
+	}
+	type seq struct {
+		module string
+		idx    []int
+		cap    int
+	}
+	var seqs []seq
+	var pat []int
+	open := map[string]*seq{}
+	size := map[string]int{}
+	for i, it := range items {
+		if pattern(it) {
+			pat = append(pat, i)
 			continue
 		}
-		b := open[j.module]
-		if b == nil {
-			b = &batch{module: j.module}
-			open[j.module] = b
+		m := it.rc.Module
+		if open[m] == nil {
+			open[m] = &seq{module: m, cap: 1 << 30}
 		}
-		b.jobs = append(b.jobs, i)
-		b.n += len(j.evs)
-		if b.n > 6000 || len(b.jobs) >= 25 {
-			batches = append(batches, *b)
-			delete(open, j.module)
+		open[m].idx = append(open[m].idx, i)
+		size[m] += len(it.rc.Events)
+		if size[m] > 4000 {
+			seqs = append(seqs, *open[m])
+			open[m], size[m] = nil, 0
 		}
 	}
-	for _, b := range open {
-		batches = append(batches, *b)
+	for _, s := range open {
+		if s != nil {
+			seqs = append(seqs, *s)
+		}
 	}
+	if len(pat) > 0 {
+		seqs = append(seqs, seq{"TracePeach", pat, capKnown})
+	}
+	c.Set("runs_showing_the_known_pattern", len(pat))
 	var mu sync.Mutex
 	var firstErr error
-	judgeOne := func(i int) {
-		j := jobs[i]
-		v, err := lib.ValidateTrace(c, j.module, dir, j.module, j.evs, 10*time.Minute)
-		mu.Lock()
-		defer mu.Unlock()
-		if err != nil {
-			if firstErr == nil {
-				firstErr = err
+	skipped := 0
+	lib.Parallel(len(seqs), 6, func(si int) {
+		s := seqs[si]
+		idx := s.idx
+		rejections := 0
+		for len(idx) > 0 {
+			if rejections >= s.cap {
+				mu.Lock()
+				skipped += len(idx)
+				mu.Unlock()
+				return
 			}
-			return
-		}
-		c.AddTraces(1)
-		if !v.Accepted {
-			reject(c, j.what, replayCase{j.cfg, j.sched, j.evs, j.module}, v)
-		}
-	}
-	lib.Parallel(len(batches), 6, func(bi int) {
-		b := batches[bi]
-		if len(b.jobs) == 1 {
-			judgeOne(b.jobs[0])
-			return
-		}
-		var evs []drv.Event
-		for _, i := range b.jobs {
-			evs = append(evs, jobs[i].evs...)
-		}
-		v, err := lib.ValidateTrace(c, b.module, dir, b.module, evs, 14*time.Minute)
-		if err != nil {
-			mu.Lock()
-			if firstErr == nil {
-				firstErr = err
+			var evs []drv.Event
+			var ends []int
+			for _, i := range idx {
+				evs = append(evs, items[i].rc.Events...)
+				ends = append(ends, len(evs))
 			}
-			mu.Unlock()
-			return
-		}
-		if v.Accepted {
+			v, err := lib.ValidateTrace(c, s.module, dir, s.module, evs, 14*time.Minute)
 			mu.Lock()
-			c.AddTraces(len(b.jobs))
+			if err != nil {
+				if firstErr == nil {
+					firstErr = err
+				}
+				mu.Unlock()
+				return
+			}
+			if v.Accepted {
+				c.AddTraces(len(idx))
+				mu.Unlock()
+				return
+			}
+			pos := position(v)
+			off := pos // index of the first unmatched event, or of the event whose step violated a property
+			if v.InvName != "" && off > 0 {
+				off--
+			}
+			k := 0
+			for k < len(ends)-1 && off >= ends[k] {
+				k++
+			}
+			start := 0
+			if k > 0 {
+				start = ends[k-1]
+			}
+			c.AddTraces(k + 1)
+			v.HighWater = pos - start
+			reject(c, items[idx[k]].what, items[idx[k]].rc, v)
 			mu.Unlock()
-			return
-		}
-		for _, i := range b.jobs { // rejected batch: every run alone
-			judgeOne(i)
+			rejections++
+			idx = idx[k+1:]
 		}
 	})
 	if firstErr != nil {
 		return firstErr
 	}
-	c.Set("runs_judged", len(jobs))
-	c.Assume("TLC trusted; events are ordered by one mutex-protected tracer; the effect of the release hook is placed at the hook (earliest possible), which can only make the specification more permissive about Acquire; schedules are forced at the granularity of gates (hooks and callback steps) — a forced run that leaves its schedule continues free and is still judged; timing never enters a verdict (watchdogs give exit 2)")
+	c.Set("runs_not_judged_after_the_known_pattern_was_rejected_cap_times", skipped)
 	return nil
 }
 
@@ -326,13 +409,17 @@ func reject(c *lib.Ctx, what string, rc replayCase, v *lib.TraceVerdict) {
 	if v.InvName == "Peach1RefinesEachT" && startsAfterNonOk(rc.Events) {
 		key = "peach:bound1-starts-after-break"
 	}
-	next := "(end)"
-	if v.HighWater < len(rc.Events) {
-		b, _ := json.Marshal(rc.Events[v.HighWater])
-		next = string(b)
+	at := "(end)"
+	k := v.HighWater
+	if v.InvName != "" && k > 0 {
+		k-- // the event whose step reached the violating state
 	}
-	c.Reject(key, fmt.Sprintf("%s: `%s`: the recorded events of the real code are not a behaviour of %s: matched %d of %d events, violated %q, next event %s",
-		what, drv.Program(rc.Cfg), rc.Module, v.HighWater, len(rc.Events), v.InvName, next), rc)
+	if k < len(rc.Events) {
+		b, _ := json.Marshal(rc.Events[k])
+		at = string(b)
+	}
+	c.Reject(key, fmt.Sprintf("%s: `%s`: the recorded events of the real code are not a behaviour of %s: matched %d of %d events, violated %q, at event %s",
+		what, drv.Program(rc.Cfg), rc.Module, v.HighWater, len(rc.Events), v.InvName, at), rc)
 }
 
 // startsAfterNonOk classifies (it does not judge): does a callback start after another one finished with break/fail?
@@ -354,8 +441,6 @@ func startsAfterNonOk(evs []drv.Event) bool {
 	}
 	return false
 }
-
-var reAction = regexp.MustCompile(`<(\w+) line`)
 
 func asInt(v any) int {
 	if n, ok := v.(int64); ok {
@@ -426,33 +511,37 @@ func scheduleOfStates(sts []map[string]any) (drv.Cfg, []drv.Step, error) {
 		return -1
 	}
 	var sched []drv.Step
+	str := func(st map[string]any, name string) string { x, _ := st[name].(string); return x }
 	for k := 1; k < len(sts); k++ {
-		h, _ := sts[k]["_header"].(string)
-		m := reAction.FindStringSubmatch(h)
-		if m == nil {
-			return cfg, nil, fmt.Errorf("no action name in %q", h)
-		}
-		switch m[1] {
-		case "FAcqEnter":
+		p, q := sts[k-1], sts[k]
+		// the step is identified by what changed (TLC labels the steps under \E only with "Next")
+		switch {
+		case str(p, "fpc") == "acqenter" && str(q, "fpc") == "acquire":
 			sched = append(sched, drv.Step{Ev: "AcqEnter"})
-		case "FAcqRet":
+		case str(p, "fpc") == "acqret" && str(q, "fpc") == "decide":
 			sched = append(sched, drv.Step{Ev: "AcqRet"})
-		case "FSpawn":
-			if cfg.Mode != "runpar" {
-				sched = append(sched, drv.Step{Ev: "Spawn"})
-			}
-		case "FReturn":
+		case str(p, "fpc") != "returned" && str(q, "fpc") == "returned":
 			sched = append(sched, drv.Step{Ev: "Returned"})
-		case "WStart":
-			sched = append(sched, drv.Step{Ev: "CbStart", I: changed(sts[k-1], sts[k], "wpc")})
-		case "WPut":
-			sched = append(sched, drv.Step{Ev: "Put", I: changed(sts[k-1], sts[k], "pos")})
-		case "WEnd":
-			sched = append(sched, drv.Step{Ev: "CbEnd", I: changed(sts[k-1], sts[k], "wpc")})
-		case "WRelease":
-			sched = append(sched, drv.Step{Ev: "Release", I: changed(sts[k-1], sts[k], "wpc")})
-		case "Cancel":
+		case p["cancelled"] == false && q["cancelled"] == true:
 			sched = append(sched, drv.Step{Ev: "CancelStart"})
+		case changed(p, q, "pos") > 0:
+			sched = append(sched, drv.Step{Ev: "Put", I: changed(p, q, "pos")})
+		case changed(p, q, "wpc") > 0:
+			i := changed(p, q, "wpc")
+			from, _ := seqOf(p["wpc"])[i-1].(string)
+			to, _ := seqOf(q["wpc"])[i-1].(string)
+			switch {
+			case from == "none" && to == "spawned":
+				if cfg.Mode != "runpar" {
+					sched = append(sched, drv.Step{Ev: "Spawn"})
+				}
+			case from == "spawned" && to == "run":
+				sched = append(sched, drv.Step{Ev: "CbStart", I: i})
+			case from == "run":
+				sched = append(sched, drv.Step{Ev: "CbEnd", I: i})
+			case to == "released":
+				sched = append(sched, drv.Step{Ev: "Release", I: i})
+			}
 		}
 	}
 	for _, s := range sched {
@@ -531,22 +620,7 @@ func simulate(c *lib.Ctx, dir string, n int) ([]simCase, error) {
 }
 
 // vacuity: the trace specifications must reject corrupted real traces.
-func vacuity(c *lib.Ctx, dir string) error {
-	cfg := drv.Cfg{Mode: "peach", N: 6, Bound: 2, Res: []string{"ok", "ok", "ok", "fail", "ok", "ok"}, Nout: []int{1, 0, 2, 1, 0, 1}, Procs: 4, Delay: []int{50, 0, -1, 200, 0, 0}}
-	_, good, err := drv.RunOne(cfg, nil, 2*time.Minute)
-	if err != nil {
-		return lib.Infra("%v", err)
-	}
-	c.AddEvals(1)
-	v, err := lib.ValidateTrace(c, "TracePeach(selftest-good)", dir, "TracePeach", good, 5*time.Minute)
-	if err != nil {
-		return err
-	}
-	if !v.Accepted {
-		reject(c, "selftest run", replayCase{cfg, nil, good, "TracePeach"}, v)
-		return nil
-	}
-	c.AddTraces(1)
+func vacuity(c *lib.Ctx, dir string, good []drv.Event) error {
 	corrupt := func(name string, f func(evs []drv.Event) []drv.Event) error {
 		evs := f(append([]drv.Event{}, good...))
 		v, err := lib.ValidateTrace(c, "TracePeach(selftest-"+name+")", dir, "TracePeach", evs, 5*time.Minute)
@@ -591,6 +665,13 @@ func vacuity(c *lib.Ctx, dir string) error {
 			}
 			return out
 		}},
+	}
+	if c.Quick() { // one corruption per quick run (rotating with the seed), all of them in the thorough tier
+		k := int(c.Seed) % len(tests)
+		if k < 0 {
+			k = -k
+		}
+		tests = tests[k : k+1]
 	}
 	lib.Parallel(len(tests), 4, func(i int) {
 		if err := corrupt(tests[i].name, tests[i].f); err != nil {
